@@ -426,6 +426,12 @@ class Interp:
             if op.endswith("Unchecked"):
                 op = op[:-9]
             a_, b_ = self.operand(rv["a"]), self.operand(rv["b"])
+            # comparisons of an unsigned value with 0 that are constant (`0..=7` patterns generate `0 <= x`)
+            if op in ("Le", "Ge", "Lt", "Gt") and re.match(r"^(u8|u16|u32|u64|u128|usize)$", self.body.op_ty(rv["a"]) or ""):
+                if (op == "Le" and is_c(a_, 0)) or (op == "Ge" and is_c(b_, 0)):
+                    return C(1)
+                if (op == "Lt" and is_c(b_, 0)) or (op == "Gt" and is_c(a_, 0)):
+                    return C(0)
             v = mk_bin(op, a_, b_)
             if rv["op"].endswith("WithOverflow"):
                 return ("ovf", v, op, a_, b_, self.body.op_ty(rv["a"]))
@@ -458,6 +464,21 @@ class Interp:
                 fk = (canon(("p", r0[1], ())), tuple(r0[2]) + ("#len",))
                 if fk in self.fields:
                     return self.fields[fk]
+        x0 = strip_casts(x)
+        # lengths that follow from the construction: a copy has the length of its source, a sub-slice the length of its range
+        if isinstance(x0, tuple) and x0 and x0[0] == "call" and len(x0[2]) >= 1:
+            nm = x0[1]
+            if re.search(r"::(to_vec|to_owned|clone|as_slice|as_mut_slice|as_ref|as_mut|into_vec|into_boxed_slice)$", nm) and len(x0[2]) == 1:
+                return self.len_of(x0[2][0])
+            if re.search(r"ops::Index(Mut)?<std::ops::Range(To|From|ToInclusive|Inclusive)?<usize>> for|Index(Mut)?<std::ops::Range", nm) \
+                    and len(x0[2]) == 2 and isinstance(x0[2][1], tuple) and x0[2][1] and x0[2][1][0] == "agg":
+                r = x0[2][1]
+                if r[1] == "std::ops::RangeTo" and len(r[3]) == 1:
+                    return r[3][0]
+                if r[1] == "std::ops::Range" and len(r[3]) == 2:
+                    return mk_bin("Sub", r[3][1], r[3][0])
+                if r[1] == "std::ops::RangeFrom" and len(r[3]) == 1:
+                    return mk_bin("Sub", self.len_of(x0[2][0]), r[3][0])
         key = canon(x)
         if key in self.veclen:
             return self.veclen[key]
@@ -516,6 +537,11 @@ class Interp:
             if name in ("reserve", "write_to_byte_slice", "new", "with_capacity", "is_empty", "into_inner", "to_bitstring", "paddings", "paddings_to_byte"):
                 return ("call", full, tuple(args), ())
             if not self.ctx.sink_internal:
+                # a private, effect-free helper of the sink type (e.g. the shared padding formula) is just a function
+                if not (t.get("argtys") or [""])[0].startswith("&mut "):
+                    v = self.try_inline(fn, args)
+                    if v is not None:
+                        return v
                 raise Undecided("unmodelled MemSink method %s at %s" % (name, site))
         if trait == BITREPR and name == "write":
             ev.append(("comp", args[1], fn.get("self_ty"), args[0], site))
@@ -1148,6 +1174,13 @@ class Interp:
             if join == -1:
                 join = None
             scrut = self.operand(t["d"])
+            if is_c(scrut):
+                # decided at analysis time: follow the taken edge only
+                taken = [tgt for val, tgt in t["vals"] if val == scrut[1]]
+                nxt = taken[0] if taken else t["else"]
+                if nxt in self.ok:
+                    bi = nxt
+                    continue
             labels = {}
             for val, tgt in t["vals"]:
                 if tgt in self.ok:
@@ -1590,6 +1623,27 @@ class FindingSignal(Exception):
     def __init__(self, kind, msg):
         Exception.__init__(self, msg)
         self.kind = kind
+
+
+def constructed_len(x):
+    """Length of a value that follows from how it was built (copy of a slice, sub-slice by range), or None."""
+    x0 = strip_casts(x)
+    if isinstance(x0, tuple) and x0 and x0[0] == "call" and len(x0[2]) >= 1:
+        nm = x0[1]
+        if re.search(r"::(to_vec|to_owned|clone|as_slice|as_mut_slice|as_ref|as_mut|into_vec|into_boxed_slice)$", nm) and len(x0[2]) == 1:
+            inner = constructed_len(x0[2][0])
+            return inner if inner is not None else ("len", x0[2][0])
+        if re.search(r"Index(Mut)?<std::ops::Range", nm) and len(x0[2]) == 2 and isinstance(x0[2][1], tuple) \
+                and x0[2][1] and x0[2][1][0] == "agg":
+            r = x0[2][1]
+            if r[1] == "std::ops::RangeTo" and len(r[3]) == 1:
+                return r[3][0]
+            if r[1] == "std::ops::Range" and len(r[3]) == 2:
+                return mk_bin("Sub", r[3][1], r[3][0])
+            if r[1] == "std::ops::RangeFrom" and len(r[3]) == 1:
+                base = constructed_len(x0[2][0])
+                return mk_bin("Sub", base if base is not None else ("len", x0[2][0]), r[3][0])
+    return None
 
 
 def field_step(v, lc, lid):
@@ -2227,6 +2281,10 @@ class Normalizer:
 
     def len_nf(self, x):
         x = strip_casts(x)
+        cl = constructed_len(x)
+        if cl is not None:
+            cl0 = strip_casts(cl)
+            return self.len_nf(cl0[1]) if isinstance(cl0, tuple) and cl0 and cl0[0] == "len" else self.nf(cl)
         if isinstance(x, tuple):
             if x[0] == "sinkbytes":
                 if x[1] not in self.marks:
